@@ -1993,7 +1993,7 @@ class VM:
         def repeat(*args):
             count = to_integer_or_infinity(args[0]) if args else 0
             if count < 0 or count == math.inf:
-                raise JSReferenceError("Invalid count value")
+                raise JSRangeError("Invalid count value")
             return s * count
 
         def startsWith(*args):
